@@ -10,6 +10,11 @@ CHECKS = {
     text='TLC explores all set_value/evaluate histories (unbounded length, finite state) of the implementation-shaped engine model for several workbooks (chains, ranges, nested ranges, unbounded ranges, CSE arrays) x sources (no data, xlsx with stored results, from_file of yml/json/pkl) and checks Coherent/RetOK/Closure/EdgesComplete; an edge-covering tour then executes every model transition on the real object, comparing each evaluate result with a from-scratch compile and the full abstract state with the model.',
     note='assumes the projection (cell_map, values, dep_graph edges, _values_changed) captures the state behaviour depends on; workbooks are the listed 6-8 node shapes, values from an 5-8 value pool',
     ref='§3 C01'),
+ 'C04': dict(
+    technique='TLA+ enumeration of written reference forms (RefForms.tla, TLC checks the declaration rule covers every influencing cell); read/build traces recorded from the real code through the PYCEL_VERIF hooks are validated by TLC against ReadTrace.tla',
+    text='TLC enumerates 3.8k formula descriptors (plain, sheet-qualified, quoted, $-absolute, range, intersection, union, multi-colon, defined names single/multi-area, ROW/COLUMN/INDEX forms, IF branches, unbounded rows/columns, CSE members); each is compiled and evaluated in two value environments with hooks on; a read is accepted by the trace specification only if it is covered by a declared precedent of the reading node and by one of its dependency-graph predecessors, and the final event only if every influencing rectangle is a graph ancestor.',
+    note='computed references (OFFSET/INDIRECT) excluded as in the statement; a formula whose evaluation raises is counted as unjudged; quick tier samples 70 descriptors per form',
+    ref='§3 C04'),
  'C05': dict(
     technique='Engine.tla with observer ranges, unbounded rows/columns and address lists explored exhaustively by TLC; every transition replayed on the real object under every address spelling; all first-evaluation permutations replayed as paths of the TLC graph',
     text='Every access path (cell, enclosing rectangle, A:A / 1:1, address list/tuple/generator, sheet-less address, address objects) is an action of the model and every first-evaluation order a path of its state graph; TLC checks RetOK/Coherent on all of them, and the tour executes each transition on the real ExcelCompiler comparing each returned element with evaluate(cell) of a from-scratch compile.',
